@@ -107,3 +107,4 @@ Definition expected_verify_shape : list (Z * Z) := [(1, 1); (2, 0); (3, 0); (0, 
 Definition CURRENT_CERT : Z := 1.                               (* X509_STORE_CTX_get_current_cert *)
 Definition expected_proceed_failure_calls : list Z := [1].     (* xmpp_disconnect, nothing else *)
 Definition expected_legacy_failure_calls : list Z := [2; 6].   (* conn_disconnect; return *)
+Definition expected_domain_writers : list Z := [1; 2].         (* _conn_connect and _conn_reset only *)
